@@ -305,6 +305,10 @@ impl Recv {
                 .pending_recv
                 .push_back(&mut self.buffer, Event::InformationalHeaders(message));
             stream.notify_recv();
+            if stream.state.is_recv_end_stream() {
+                // No more push promises can arrive on this stream.
+                stream.notify_push();
+            }
         }
 
         Ok(())
